@@ -64,6 +64,22 @@ type Step struct {
 	Err      string  `json:"err,omitempty"`
 }
 
+// Everything handed to the Broker stays the CALLER's: the NodeIDs slice of a pipeline definition and the option list are scribbled
+// over as soon as RegisterPipeline has returned (a caller that builds its definitions in one reused buffer does just that); what
+// the Broker needs later it must have copied.
+func regPipe(b *el.Broker, def el.Pipeline, opts ...el.Option) error {
+	ids := append(make([]el.NodeID, 0, len(def.NodeIDs)+2), def.NodeIDs...)
+	def.NodeIDs = ids
+	err := b.RegisterPipeline(def, opts...)
+	for i := range ids {
+		ids[i] = el.NodeID(fmt.Sprintf("reused-buffer-%d", i))
+	}
+	for i := range opts {
+		opts[i] = nil
+	}
+	return err
+}
+
 // ---------- nodes ----------
 type world struct {
 	b         *el.Broker
@@ -359,7 +375,7 @@ func runScenario(sc Scenario, watchdog, parkDelay time.Duration) Result {
 	fmtN, sinkN := &plain{typ: el.NodeTypeFormatter}, &plain{typ: el.NodeTypeSink}
 	must(b.RegisterNode("fmt", fmtN))
 	must(b.RegisterNode("sink", sinkN))
-	must(b.RegisterPipeline(el.Pipeline{PipelineID: "inner", EventType: "inner", NodeIDs: []el.NodeID{"fmt", "sink"}}))
+	must(regPipe(b, el.Pipeline{PipelineID: "inner", EventType: "inner", NodeIDs: []el.NodeID{"fmt", "sink"}}))
 
 	depth := sc.Depth
 	if depth == 0 {
@@ -381,7 +397,7 @@ func runScenario(sc Scenario, watchdog, parkDelay time.Duration) Result {
 		must(b.RegisterNode("re", re))
 		must(b.RegisterNode("fmt2", &plain{typ: el.NodeTypeFormatter}))
 		must(b.RegisterNode("sink2", &plain{typ: el.NodeTypeSink}))
-		must(b.RegisterPipeline(el.Pipeline{PipelineID: "outer", EventType: "outer", NodeIDs: []el.NodeID{"re", "fmt2", "sink2"}}))
+		must(regPipe(b, el.Pipeline{PipelineID: "outer", EventType: "outer", NodeIDs: []el.NodeID{"re", "fmt2", "sink2"}}))
 		switch sc.Op {
 		case "Send":
 			ok = r.step("Send(outer)", func() error { _, err := b.Send(ctx, "outer", "x"); return err })
@@ -432,7 +448,7 @@ func runScenario(sc Scenario, watchdog, parkDelay time.Duration) Result {
 			must(b.RegisterNode(n, &failing{plain: plain{typ: el.NodeTypeFilter}, reopenErr: pls[i].fail && sc.Op == "Reopen", closeErr: pls[i].fail && sc.Op != "Reopen", class: sc.ErrClass}))
 			must(b.RegisterNode(n+"-fmt", &plain{typ: el.NodeTypeFormatter}))
 			must(b.RegisterNode(n+"-sink", &plain{typ: el.NodeTypeSink}))
-			must(b.RegisterPipeline(el.Pipeline{PipelineID: pls[i].id, EventType: pls[i].t, NodeIDs: []el.NodeID{n, n + "-fmt", n + "-sink"}}))
+			must(regPipe(b, el.Pipeline{PipelineID: pls[i].id, EventType: pls[i].t, NodeIDs: []el.NodeID{n, n + "-fmt", n + "-sink"}}))
 		}
 		expect := func(what string, err error, want bool) error {
 			if (err != nil) != want && res.Wrong == "" {
@@ -480,8 +496,8 @@ func runScenario(sc Scenario, watchdog, parkDelay time.Duration) Result {
 		must(b.RegisterNode("fmt3", &plain{typ: el.NodeTypeFormatter}))
 		must(b.RegisterNode("sink3", &plain{typ: el.NodeTypeSink}))
 		must(b.RegisterNode("unused", &plain{typ: el.NodeTypeFilter}))
-		must(b.RegisterPipeline(el.Pipeline{PipelineID: "outer", EventType: "outer", NodeIDs: []el.NodeID{"re", "fmt2", "sink2"}}))
-		must(b.RegisterPipeline(el.Pipeline{PipelineID: "outer2", EventType: "outer", NodeIDs: []el.NodeID{"fmt3", "sink3"}}))
+		must(regPipe(b, el.Pipeline{PipelineID: "outer", EventType: "outer", NodeIDs: []el.NodeID{"re", "fmt2", "sink2"}}))
+		must(regPipe(b, el.Pipeline{PipelineID: "outer2", EventType: "outer", NodeIDs: []el.NodeID{"fmt3", "sink3"}}))
 		inflight := make(chan struct{})
 		go func() { defer close(inflight); _, _ = b.Send(ctx, "outer", "x") }()
 		ok = r.step("Send(outer) reaches the node", func() error { <-re.entered; return nil })
@@ -497,7 +513,7 @@ func runScenario(sc Scenario, watchdog, parkDelay time.Duration) Result {
 				case "RemovePipeline":
 					_ = b.RemovePipeline("outer", "outer2")
 				case "RegisterPipeline":
-					_ = b.RegisterPipeline(el.Pipeline{PipelineID: "outer3", EventType: "outer", NodeIDs: []el.NodeID{"fmt3", "sink3"}})
+					_ = regPipe(b, el.Pipeline{PipelineID: "outer3", EventType: "outer", NodeIDs: []el.NodeID{"fmt3", "sink3"}})
 				case "RemoveNode":
 					_ = b.RemoveNode(cctx, "unused")
 				case "RegisterNode":
@@ -524,7 +540,7 @@ func runScenario(sc Scenario, watchdog, parkDelay time.Duration) Result {
 		// or between a call and the dispatch, show up as a loop that never finishes)
 		must(b.RegisterNode("fmt2", &plain{typ: el.NodeTypeFormatter}))
 		must(b.RegisterNode("sink2", &plain{typ: el.NodeTypeSink}))
-		must(b.RegisterPipeline(el.Pipeline{PipelineID: "outer", EventType: "outer", NodeIDs: []el.NodeID{"fmt2", "sink2"}}))
+		must(regPipe(b, el.Pipeline{PipelineID: "outer", EventType: "outer", NodeIDs: []el.NodeID{"fmt2", "sink2"}}))
 		ops := strings.Split(sc.Op, "|")
 		ok = r.step("loop("+sc.Op+")", func() error {
 			var pw sync.WaitGroup
@@ -551,13 +567,13 @@ func runScenario(sc Scenario, watchdog, parkDelay time.Duration) Result {
 		must(b.RegisterNode("g", gf))
 		must(b.RegisterNode("fmt2", &plain{typ: el.NodeTypeFormatter}))
 		must(b.RegisterNode("sink2", &plain{typ: el.NodeTypeSink}))
-		must(b.RegisterPipeline(el.Pipeline{PipelineID: "outer", EventType: "outer", NodeIDs: []el.NodeID{"g", "fmt2", "sink2"}}))
+		must(regPipe(b, el.Pipeline{PipelineID: "outer", EventType: "outer", NodeIDs: []el.NodeID{"g", "fmt2", "sink2"}}))
 		switch sc.Target {
 		case "self":
 			// the composed event goes through the same gated filter again
-			must(b.RegisterPipeline(el.Pipeline{PipelineID: "c", EventType: "composed", NodeIDs: []el.NodeID{"g", "fmt2", "sink2"}}))
+			must(regPipe(b, el.Pipeline{PipelineID: "c", EventType: "composed", NodeIDs: []el.NodeID{"g", "fmt2", "sink2"}}))
 		case "other":
-			must(b.RegisterPipeline(el.Pipeline{PipelineID: "c", EventType: "composed", NodeIDs: []el.NodeID{"fmt", "sink"}}))
+			must(regPipe(b, el.Pipeline{PipelineID: "c", EventType: "composed", NodeIDs: []el.NodeID{"fmt", "sink"}}))
 		}
 		for i := 0; i < sc.Groups && ok; i++ {
 			id := fmt.Sprintf("grp%d", i)
@@ -622,7 +638,7 @@ func otherOp(b *el.Broker, op string) error {
 	case "RegisterNode":
 		return b.RegisterNode("extra", &plain{typ: el.NodeTypeFilter})
 	case "RegisterPipeline":
-		return b.RegisterPipeline(el.Pipeline{PipelineID: "extra", EventType: "extra", NodeIDs: []el.NodeID{"fmt", "sink"}})
+		return regPipe(b, el.Pipeline{PipelineID: "extra", EventType: "extra", NodeIDs: []el.NodeID{"fmt", "sink"}})
 	case "RemovePipeline":
 		return b.RemovePipeline("inner", "nosuch")
 	case "SetSuccessThreshold":
@@ -649,10 +665,10 @@ func otherOp(b *el.Broker, op string) error {
 		_ = b.RemovePipeline("", "p")
 		_, _ = b.RemovePipelineAndNodes(ctx, "nosuchtype", "p")
 		_, _ = b.RemovePipelineAndNodes(ctx, "inner", "nosuch")
-		_ = b.RegisterPipeline(el.Pipeline{PipelineID: "bad", EventType: "inner", NodeIDs: []el.NodeID{"nosuch"}})
-		_ = b.RegisterPipeline(el.Pipeline{PipelineID: "bad", EventType: "inner", NodeIDs: []el.NodeID{"sink", "fmt"}})
-		_ = b.RegisterPipeline(el.Pipeline{PipelineID: "inner", EventType: "inner", NodeIDs: []el.NodeID{"fmt", "sink"}}, el.WithPipelineRegistrationPolicy(el.DenyOverwrite))
-		_ = b.RegisterPipeline(el.Pipeline{PipelineID: "inner", EventType: "inner", NodeIDs: []el.NodeID{"fmt", "sink"}})
+		_ = regPipe(b, el.Pipeline{PipelineID: "bad", EventType: "inner", NodeIDs: []el.NodeID{"nosuch"}})
+		_ = regPipe(b, el.Pipeline{PipelineID: "bad", EventType: "inner", NodeIDs: []el.NodeID{"sink", "fmt"}})
+		_ = regPipe(b, el.Pipeline{PipelineID: "inner", EventType: "inner", NodeIDs: []el.NodeID{"fmt", "sink"}}, el.WithPipelineRegistrationPolicy(el.DenyOverwrite))
+		_ = regPipe(b, el.Pipeline{PipelineID: "inner", EventType: "inner", NodeIDs: []el.NodeID{"fmt", "sink"}})
 		_ = b.RegisterNode("", &plain{typ: el.NodeTypeFilter})
 		_ = b.RegisterNode("deny", &plain{typ: el.NodeTypeFilter}, el.WithNodeRegistrationPolicy(el.DenyOverwrite))
 		_ = b.RegisterNode("deny", &plain{typ: el.NodeTypeFilter})
